@@ -400,4 +400,252 @@ theorem allMCISP_nodup (P : Problem) (hT : P.tnodes.Nodup) (hS : P.pnodes.Nodup)
     have h2 := ((mem_extend_iff P S' m).1 hm').dom
     exact hne (h1.symm.trans h2)
 
+/-! ### `AutEquiv` is an equivalence relation -/
+
+/-- the map with domain `{u ∈ K | φ u ≠ none}` listed along `K` -/
+def ofFun (K : List Int) (φ : Int → Option Int) : Map := K.filterMap fun u => (φ u).map fun t => (u, t)
+
+theorem filterMap_congr_mem {α β} {l : List α} {f g : α → Option β} (h : ∀ a ∈ l, f a = g a) :
+    l.filterMap f = l.filterMap g := by
+  induction l with
+  | nil => rfl
+  | cons a l ih =>
+    rw [List.filterMap_cons, List.filterMap_cons, h a (by simp), ih (fun b hb => h b (by simp [hb]))]
+
+theorem compose_eq_ofFun (K : List Int) (m a : Map) :
+    compose K m a = ofFun K (fun u => (a.lookup u).bind (fun v => m.lookup v)) := by
+  unfold compose ofFun
+  apply filterMap_congr_mem
+  intro u _
+  show ((a.lookup u).bind fun au => (m.lookup au).map fun t => (u, t))
+      = ((a.lookup u).bind fun v => m.lookup v).map fun t => (u, t)
+  cases a.lookup u <;> simp
+
+theorem ofFun_cons_none {k : Int} {K : List Int} {φ : Int → Option Int} (h : φ k = none) :
+    ofFun (k :: K) φ = ofFun K φ := by
+  unfold ofFun; rw [List.filterMap_cons, h]; rfl
+
+theorem ofFun_cons_some {k t : Int} {K : List Int} {φ : Int → Option Int} (h : φ k = some t) :
+    ofFun (k :: K) φ = (k, t) :: ofFun K φ := by
+  unfold ofFun; rw [List.filterMap_cons, h]; rfl
+
+theorem ofFun_congr {K : List Int} {φ ψ : Int → Option Int} (h : ∀ u ∈ K, φ u = ψ u) :
+    ofFun K φ = ofFun K ψ := by
+  unfold ofFun
+  apply filterMap_congr_mem
+  intro u hu; rw [h u hu]
+
+theorem lookup_ofFun (K : List Int) (φ : Int → Option Int) (u : Int) :
+    (ofFun K φ).lookup u = if u ∈ K then φ u else none := by
+  induction K with
+  | nil => simp [ofFun]
+  | cons k K ih =>
+    unfold ofFun at ih ⊢
+    rw [List.filterMap_cons]
+    by_cases huk : u = k
+    · subst huk
+      cases hφ : φ u with
+      | none =>
+        simp only [Option.map_none, ih, hφ]
+        simp
+      | some t => simp
+    · have hbeq : (u == k) = false := by simpa using huk
+      cases hφ : φ k with
+      | none => simp only [Option.map_none, ih, List.mem_cons, huk, false_or]
+      | some t => simp only [Option.map_some, List.lookup_cons, hbeq, ih, List.mem_cons, huk, false_or]
+
+theorem lookup_eq_none_of_not_mem {m : Map} {u : Int} (h : u ∉ m.map Prod.fst) : m.lookup u = none := by
+  induction m with
+  | nil => rfl
+  | cons x rest ih =>
+    obtain ⟨a, b⟩ := x
+    simp only [List.map_cons, List.mem_cons, not_or] at h
+    have : (u == a) = false := by simpa using h.1
+    rw [List.lookup_cons, this]; exact ih h.2
+
+/-- a map whose domain is a sublist of `K` is determined by its look-up function -/
+theorem ofFun_lookup {K : List Int} (hK : K.Nodup) {m : Map} (hm : (m.map Prod.fst).Sublist K) :
+    ofFun K (fun u => m.lookup u) = m := by
+  induction K generalizing m with
+  | nil =>
+    have : m = [] := by simpa using hm
+    subst this; rfl
+  | cons k K ih =>
+    have hK' := List.nodup_cons.1 hK
+    cases m with
+    | nil =>
+      unfold ofFun
+      rw [List.filterMap_eq_nil_iff]
+      intro u _; rfl
+    | cons x m' =>
+      obtain ⟨p, t⟩ := x
+      simp only [List.map_cons] at hm
+      cases hm with
+      | cons _ h =>
+        -- k is skipped: k is not in the domain of m
+        have hk : k ∉ ((p, t) :: m').map Prod.fst := fun hk => hK'.1 (h.subset hk)
+        rw [ofFun_cons_none (lookup_eq_none_of_not_mem hk)]
+        exact ih hK'.2 (m := (p, t) :: m') h
+      | cons_cons _ h =>
+        have h1 : ofFun K (fun u => List.lookup u ((k, t) :: m')) = ofFun K (fun u => m'.lookup u) := by
+          apply ofFun_congr
+          intro u hu
+          have hne : (u == k) = false := by
+            have : u ≠ k := fun e => hK'.1 (e ▸ hu)
+            simpa using this
+          simp only [List.lookup_cons, hne]
+        have h0 : (fun u => List.lookup u ((k, t) :: m')) k = some t := by simp
+        rw [ofFun_cons_some h0, h1, ih hK'.2 (m := m') h]
+
+theorem subset_of_nodup_of_length_le {l₁ l₂ : List Int} (h₁ : l₁.Nodup) (hsub : l₁ ⊆ l₂)
+    (hlen : l₂.length ≤ l₁.length) : l₂ ⊆ l₁ := by
+  induction l₁ generalizing l₂ with
+  | nil =>
+    have : l₂ = [] := by simpa using hlen
+    subst this; exact fun _ h => h
+  | cons a t ih =>
+    rw [List.nodup_cons] at h₁
+    have ha : a ∈ l₂ := hsub (List.mem_cons_self ..)
+    have htsub : t ⊆ l₂.erase a := by
+      intro x hx
+      have hxa : x ≠ a := fun h => h₁.1 (h ▸ hx)
+      exact (List.mem_erase_of_ne hxa).2 (hsub (List.mem_cons_of_mem _ hx))
+    have hl : (l₂.erase a).length ≤ t.length := by
+      rw [List.length_erase]; simp only [ha, if_true]
+      simp only [List.length_cons] at hlen; omega
+    have := ih h₁.2 htsub hl
+    intro x hx
+    by_cases hxa : x = a
+    · subst hxa; exact List.mem_cons_self ..
+    · exact List.mem_cons_of_mem _ (this ((List.mem_erase_of_ne hxa).2 hx))
+
+/-- an injective self-map of a duplicate-free list is onto -/
+theorem surj_of_inj {K : List Int} (hK : K.Nodup) {f : Int → Int} (hmem : ∀ u ∈ K, f u ∈ K)
+    (hinj : ∀ u ∈ K, ∀ v ∈ K, u ≠ v → f u ≠ f v) : ∀ w ∈ K, ∃ v ∈ K, f v = w := by
+  have hn : (K.map f).Nodup := by
+    rw [List.nodup_iff_pairwise_ne, List.pairwise_map]
+    exact List.Pairwise.imp_of_mem (fun hu hv hne => hinj _ hu _ hv hne) hK
+  have hsub : K.map f ⊆ K := by
+    intro x hx
+    obtain ⟨u, hu, rfl⟩ := List.mem_map.1 hx
+    exact hmem u hu
+  have := subset_of_nodup_of_length_le hn hsub (by simp)
+  intro w hw
+  obtain ⟨v, hv, e⟩ := List.mem_map.1 (this hw)
+  exact ⟨v, hv, e⟩
+
+theorem isAut_id (sg : Graph) : IsIndIso sg sg id :=
+  ⟨fun u hu => ⟨hu, by simp [colourPred]⟩, fun _ _ _ _ h => h, fun _ _ _ _ _ => rfl⟩
+
+theorem isAut_comp {sg : Graph} {f f' : Int → Int} (h : IsIndIso sg sg f) (h' : IsIndIso sg sg f') :
+    IsIndIso sg sg (f ∘ f') := by
+  refine ⟨?_, ?_, ?_⟩
+  · intro u hu
+    have h1 := h'.node u hu
+    have h2 := h.node (f' u) h1.1
+    refine ⟨h2.1, ?_⟩
+    have e1 : sg.ncol (f' u) = sg.ncol u := by simpa [colourPred] using h1.2
+    have e2 : sg.ncol (f (f' u)) = sg.ncol (f' u) := by simpa [colourPred] using h2.2
+    simp [colourPred, e2, e1]
+  · intro u hu v hv hne
+    exact h.inj _ (h'.node u hu).1 _ (h'.node v hv).1 (h'.inj u hu v hv hne)
+  · intro u hu v hv hne
+    have := h.edge _ (h'.node u hu).1 _ (h'.node v hv).1 (h'.inj u hu v hv hne)
+    simp only [Function.comp]
+    rw [this, h'.edge u hu v hv hne]
+
+theorem isAut_inv {sg : Graph} (hs : sg.keys.Nodup) {f : Int → Int} (h : IsIndIso sg sg f) :
+    ∃ h' : Int → Int, IsIndIso sg sg h' ∧ ∀ u ∈ sg.keys, f (h' u) = u := by
+  have hsurj := surj_of_inj hs (fun u hu => (h.node u hu).1) h.inj
+  let h' : Int → Int := fun u => (sg.keys.find? (fun v => f v == u)).getD u
+  have hspec : ∀ u ∈ sg.keys, h' u ∈ sg.keys ∧ f (h' u) = u := by
+    intro u hu
+    obtain ⟨v, hv, e⟩ := hsurj u hu
+    cases hf : sg.keys.find? (fun v => f v == u) with
+    | none =>
+      have := List.find?_eq_none.1 hf v hv
+      simp [e] at this
+    | some w =>
+      have h1 := List.find?_some hf
+      have h2 := List.mem_of_find?_eq_some hf
+      simp only [beq_iff_eq] at h1
+      simp only [h', hf, Option.getD_some]
+      exact ⟨h2, h1⟩
+  refine ⟨h', ⟨?_, ?_, ?_⟩, fun u hu => (hspec u hu).2⟩
+  · intro u hu
+    have := h.node (h' u) (hspec u hu).1
+    rw [(hspec u hu).2] at this
+    refine ⟨(hspec u hu).1, ?_⟩
+    have e : sg.ncol u = sg.ncol (h' u) := by simpa [colourPred] using this.2
+    simp [colourPred, e]
+  · intro u hu v hv hne e
+    apply hne
+    rw [← (hspec u hu).2, ← (hspec v hv).2, e]
+  · intro u hu v hv hne
+    have hne' : h' u ≠ h' v := by
+      intro e; apply hne
+      rw [← (hspec u hu).2, ← (hspec v hv).2, e]
+    have := h.edge _ (hspec u hu).1 _ (hspec v hv).1 hne'
+    rw [(hspec u hu).2, (hspec v hv).2] at this
+    exact this.symm
+
+/-- `AutEquiv` read with functions: composition with an automorphism of the pattern -/
+theorem autEquiv_iff_fun (sg : Graph) (hs : sg.keys.Nodup) (m m' : Map) :
+    AutEquiv sg m m' ↔ ∃ f, IsIndIso sg sg f ∧ m' = ofFun sg.keys (fun u => m.lookup (f u)) := by
+  unfold AutEquiv auts allIsos
+  constructor
+  · rintro ⟨a, ha, rfl⟩
+    obtain ⟨hdom, hf⟩ := (mem_allIsosP_iff sg sg _ hs a).1 ha
+    have hn : (a.map Prod.fst).Nodup := by rw [hdom]; exact hs
+    refine ⟨Map.toFun a, hf, ?_⟩
+    rw [compose_eq_ofFun]
+    apply ofFun_congr
+    intro u hu
+    rw [← hdom] at hu
+    obtain ⟨⟨u', t⟩, hx, rfl⟩ := List.mem_map.1 hu
+    simp [lookup_of_mem hn hx, toFun_of_mem hn hx]
+  · rintro ⟨f, hf, rfl⟩
+    refine ⟨sg.keys.map (fun u => (u, f u)), allIsosP_complete sg sg _ hs f hf, ?_⟩
+    rw [compose_eq_ofFun]
+    apply ofFun_congr
+    intro u hu
+    have hn : ((sg.keys.map (fun u => (u, f u))).map Prod.fst).Nodup := by
+      rw [List.map_map]
+      have : (Prod.fst ∘ fun u => (u, f u)) = id := rfl
+      rw [this, List.map_id]; exact hs
+    have hx : (u, f u) ∈ sg.keys.map (fun u => (u, f u)) := List.mem_map.2 ⟨u, hu, rfl⟩
+    simp [lookup_of_mem hn hx]
+
+/-- **`AutEquiv` is an equivalence relation** on the (partial) maps whose domain is a sublist of
+the pattern nodes (in particular on the isomorphisms, whose domain is all of them). -/
+theorem autEquiv_equivalence (sg : Graph) (hs : sg.keys.Nodup) :
+    (∀ m, (m.map Prod.fst).Sublist sg.keys → AutEquiv sg m m)
+    ∧ (∀ m m', (m.map Prod.fst).Sublist sg.keys → AutEquiv sg m m' → AutEquiv sg m' m)
+    ∧ (∀ m m' m'', AutEquiv sg m m' → AutEquiv sg m' m'' → AutEquiv sg m m'') := by
+  refine ⟨?_, ?_, ?_⟩
+  · intro m hm
+    rw [autEquiv_iff_fun sg hs]
+    exact ⟨id, isAut_id sg, (ofFun_lookup hs hm).symm⟩
+  · intro m m' hm h
+    rw [autEquiv_iff_fun sg hs] at h ⊢
+    obtain ⟨f, hf, rfl⟩ := h
+    obtain ⟨h', hh', hinv⟩ := isAut_inv hs hf
+    refine ⟨h', hh', ?_⟩
+    have : ofFun sg.keys (fun u => (ofFun sg.keys (fun u => m.lookup (f u))).lookup (h' u))
+        = ofFun sg.keys (fun u => m.lookup u) := by
+      apply ofFun_congr
+      intro u hu
+      rw [lookup_ofFun]
+      simp [(hh'.node u hu).1, hinv u hu]
+    rw [this, ofFun_lookup hs hm]
+  · intro m m' m'' h h2
+    rw [autEquiv_iff_fun sg hs] at h h2 ⊢
+    obtain ⟨f, hf, rfl⟩ := h
+    obtain ⟨f', hf', rfl⟩ := h2
+    refine ⟨f ∘ f', isAut_comp hf hf', ?_⟩
+    apply ofFun_congr
+    intro u hu
+    rw [lookup_ofFun]
+    simp [(hf'.node u hu).1]
+
 end Iso
